@@ -146,8 +146,15 @@ func (r *runner) namesOf(v slip.Object) ([]int, bool) {
 	return out, true
 }
 
+// No operation of a case can loop; the watchdog only guards the run against a hang introduced by a change.
+// It is generous because an abandoned evaluation would go on mutating the class registry behind the harness
+// (a 5 s limit once expired on a loaded machine and produced a class object the harness had not seen).
 func (r *runner) eval(src string) common.Outcome {
-	return common.EvalTimeout(r.scope, src, 5*time.Second)
+	o := common.EvalTimeout(r.scope, src, 120*time.Second)
+	if o.Err == "timeout" && r.bad == "" {
+		r.bad = "evaluation did not return within 120 s: " + src
+	}
+	return o
 }
 
 func (r *runner) record(g, lisp, gob, shown string) {
@@ -198,6 +205,9 @@ func (r *runner) tableObs() (string, string) {
 }
 
 func (r *runner) defclass(f classForm) {
+	if r.bad != "" {
+		return
+	}
 	slots := make([]string, len(f.Slots))
 	gslots := make([]string, len(f.Slots))
 	for i, sd := range f.Slots {
@@ -244,6 +254,9 @@ func (r *runner) slotState(inst slip.Instance, s int) (string, string) {
 }
 
 func (r *runner) makeInstance(n int, args [][2]int) {
+	if r.bad != "" {
+		return
+	}
 	var la, ga []string
 	for _, a := range args {
 		la = append(la, fmt.Sprintf(":i%d %d", a[0], a[1]))
@@ -295,6 +308,9 @@ func (r *runner) valueObs(o common.Outcome) (string, string) {
 }
 
 func (r *runner) simple(g, lisp string, conv func(common.Outcome) (string, string)) {
+	if r.bad != "" {
+		return
+	}
 	o := r.eval(lisp)
 	gob, shown := conv(o)
 	r.record(g, lisp, gob, shown)
@@ -589,6 +605,10 @@ func Run(ctx *common.Ctx) {
 					}
 					r.simple(fmt.Sprintf("OCall %d %d %d (%d)%%Z", ak, s, i, v), lisp, r.valueObs)
 					ctx.Hist([]string{"reader", "writer", "accessor", "setf-accessor"}[ak])
+					if (ak == 1 || ak == 3) && rng.Chance(50) { // read back what the writer stored
+						r.simple(fmt.Sprintf("OSlotValue %d %d", i, s), fmt.Sprintf("(slot-value i%d 's%d)", i, s), r.valueObs)
+						ctx.Hist("slot-value")
+					}
 				case kind < 76:
 					n := rng.Intn(nClasses)
 					if rng.Chance(10) {
@@ -705,19 +725,23 @@ func replayOrderFinding(ctx *common.Ctx) {
 	if err := json.Unmarshal(raw, &w); err != nil || w.Template == "" || w.Attempts < 1 {
 		return
 	}
-	stale, seen, last, lastExp := 0, "", "", ""
+	stale, ran, seen, last, lastExp := 0, 0, "", "", ""
 	for a := 0; a < w.Attempts; a++ {
 		src := strings.ReplaceAll(w.Template, "@", fmt.Sprintf("kf%d", a))
 		exp := strings.ReplaceAll(w.Expected, "@", fmt.Sprintf("kf%d", a))
-		got := strings.Join(strings.Fields(common.ShowOutcome(common.EvalTimeout(slip.NewScope(), src, 5*time.Second))), " ")
+		got := strings.Join(strings.Fields(common.ShowOutcome(common.EvalTimeout(slip.NewScope(), src, 120*time.Second))), " ")
 		last, lastExp = src, exp
+		if got == "!timeout" {
+			continue // a loaded machine, not a stale list
+		}
+		ran++
 		if got != exp {
 			stale++
 			seen = got
 		}
 	}
-	ctx.Hist(fmt.Sprintf("order-witness-stale-runs:%d-of-%d", stale, w.Attempts))
-	if stale == w.Attempts {
+	ctx.Hist(fmt.Sprintf("order-witness-stale-runs:%d-of-%d", stale, ran))
+	if ran >= 20 && stale == ran {
 		ctx.Violate("a redefinition is never reflected in a class two levels below the redefined class (all runs of the witness; "+
 			"the unchanged code gets it right whenever Go's map order visits the direct subclass first)", last, seen, lastExp)
 	}
